@@ -51,7 +51,7 @@ Proof.
     destruct (mem n open); [reflexivity|].
     destruct e as [v|s|]; try reflexivity.
     apply bind_log_nil; [apply Hrec|]. intros x. destruct (Nat.eqb _ _); reflexivity.
-  - destruct (start_tag _ _ _ _); reflexivity.
+  - destruct (start_tag _ _ _ _ _); reflexivity.
   - destruct tags; [reflexivity|]. destruct (Nat.leb _ _); [reflexivity|].
     destruct (N.eqb _ _); reflexivity.
 Qed.
